@@ -118,7 +118,7 @@ def parseVerdict (ows : List String) : Option Verdict :=
 structure JudgeSt where
   cfg : Option Cfg := none
   tr : Tracker := ⟨0, 0, fun _ => []⟩
-  verdict : Option String := none   -- set at the first failing event (`Spec.judgeFrom` stops there too)
+  verdict : Option String := none   -- set at the first failing event
 
 /-- Lines the implementation rejected as malformed (`bad-op`) are not part of the observable history. -/
 def judgeStep (s : JudgeSt) (op out : String) : JudgeSt :=
@@ -139,8 +139,7 @@ def judgeStep (s : JudgeSt) (op out : String) : JudgeSt :=
         let o : Obs := ⟨e, v, snap⟩
         if stepOk cfg s.tr o then { s with tr := s.tr.next cfg o }
         else
-          let fid := match finding cfg s.tr o with | some f => f.name | none => "-"
-          { s with verdict := some s!"fail {fid} {stepWhy cfg s.tr o} at {pctEnc op} => {pctEnc out}" }
+          { s with verdict := some s!"fail - {stepWhy cfg s.tr o} at {pctEnc op} => {pctEnc out}" }
       | _, _ => { s with verdict := some ("fail - unparsable-output:" ++ pctEnc out) }
     | _, _ => { s with verdict := some ("fail - implementation-accepted-a-malformed-op:" ++ pctEnc op) }
 
